@@ -409,6 +409,18 @@ class Injected(OSError):
     pass
 
 
+_unraisable = sys.unraisablehook
+
+
+def _quiet_unraisable(u):
+    # a fault injected into the implicit close of a dropped file object surfaces in __del__: not worth a traceback
+    if not isinstance(u.exc_value, Injected):
+        _unraisable(u)
+
+
+sys.unraisablehook = _quiet_unraisable
+
+
 def local_case(args):
     """args = (op, plan) with plan = [((label, occurrence), count), ...]: the first `count` attempts fail at that step."""
     op, plan = args
@@ -419,13 +431,10 @@ def local_case(args):
     be0 = L.Local(str(root))
     for k, v in state.items():
         be0.upload(k, v)
-    BasePath = type(Path())
     ctr = {'fails': 0, 'occ': {}, 'steps': [], 'attempts': 0}
 
-    def step(label):
-        if label in ('mkdir', 'open-r', 'unlink-target', 'scandir', 'exists'):
-            # first step of an attempt (per operation kind)
-            pass
+    def step(label, path=None):
+        # positions are (kind of file-system call, its occurrence within the current attempt)
         occ = ctr['occ'].get(label, 0)
         ctr['occ'][label] = occ + 1
         ctr['steps'].append((label, occ))
@@ -434,142 +443,16 @@ def local_case(args):
             ctr['fails'] += 1
             raise Injected(f'injected at {label}#{occ}')
 
-    def new_attempt():
+    def new_attempt(*_a):
         ctr['occ'] = {}
         ctr['attempts'] += 1
 
-    class KW:
-        def __init__(self, f):
-            self.f = f
-
-        def write(self, data):
-            step('write')
-            return self.f.write(data)
-
-        def __enter__(self):
-            return self
-
-        def __exit__(self, *a):
-            try:
-                step('close')
-            finally:
-                self.f.close()
-
-        def __getattr__(self, k):
-            return getattr(self.f, k)
-
-    class KR:
-        def __init__(self, f):
-            self.f = f
-
-        def read(self, n=-1):
-            step('read')
-            return self.f.read(n)
-
-        def fileno(self):
-            return self.f.fileno()
-
-        def __enter__(self):
-            return self
-
-        def __exit__(self, *a):
-            self.f.close()
-
-        def __getattr__(self, k):
-            return getattr(self.f, k)
-
-    class KPath(BasePath):
-        def mkdir(self, *a, **k):
-            new_attempt()
-            step('mkdir')
-            return super().mkdir(*a, **k)
-
-        def write_bytes(self, data):
-            step('open-w')
-            with BasePath.open(self, 'wb') as f:
-                step('write')
-                half = len(data) // 2
-                f.write(data[:half])
-                step('write')
-                f.write(data[half:])
-                step('close')
-            return len(data)
-
-        def read_bytes(self):
-            new_attempt()
-            step('open-r')
-            with BasePath.open(self, 'rb') as f:
-                step('read')
-                return f.read()
-
-        def open(self, mode='r', *a, **k):
-            if 'w' in mode:
-                step('open-w')
-                return KW(super().open(mode, *a, **k))
-            new_attempt()
-            step('open-r')
-            return KR(super().open(mode, *a, **k))
-
-        def replace(self, target):
-            step('rename')
-            return super().replace(target)
-
-        def unlink(self, *a, **k):
-            if str(self).endswith('.tmp'):
-                return super().unlink(*a, **k)   # cleanup of the temporary is not a fault position
-            new_attempt()
-            step('unlink')
-            return super().unlink(*a, **k)
-
-    import tempfile
-
-    def ktemp(*a, **k):
-        step('mktemp')
-        return tempfile.NamedTemporaryFile(*a, **k)
-
-    real_exists = os.path.exists
-
-    class KOsPath:
-        def __getattr__(self, k):
-            return getattr(os.path, k)
-
-        def exists(self, p):
-            new_attempt()
-            step('exists')
-            return real_exists(p)
-
-    class KOs:
-        path = KOsPath()
-
-        def __getattr__(self, k):
-            return getattr(os, k)
-
-        def scandir(self, p):
-            new_attempt()
-            step('scandir')
-            return os.scandir(p)
-
-        def fstat(self, fd):
-            step('fstat')
-            return os.fstat(fd)
-
-    import replicat.utils.fs as FSM
-
-    class KOsSub:
-        path = os.path
-
-        def __getattr__(self, k):
-            return getattr(os, k)
-
-        def scandir(self, p):
-            step('scandir-subdirectory')
-            return os.scandir(p)
-
-    has_ntf = hasattr(L, 'NamedTemporaryFile')
-    saved = (L.Path, getattr(L, 'NamedTemporaryFile', None), L.os, FSM.os)
-    L.Path, L.os, FSM.os = KPath, KOs(), KOsSub()
-    if has_ntf:
-        L.NamedTemporaryFile = ktemp
+    # steps are taken below the adapter (mc.fsteps); a new attempt starts when the retry policy goes to sleep
+    from mc.fsteps import FSteps
+    saved_sleep = backoff._sync.time
+    backoff._sync.time = types.SimpleNamespace(sleep=new_attempt)
+    fsteps = FSteps(root, step, reads=True, torn=True)
+    fsteps.install()
     res = exc = src = None
     model = dict(state)
     try:
@@ -583,17 +466,16 @@ def local_case(args):
         except Exception as e:
             exc = e
     finally:
-        L.Path, L.os, FSM.os = saved[0], saved[2], saved[3]
-        if has_ntf:
-            L.NamedTemporaryFile = saved[1]
+        fsteps.uninstall()
+        backoff._sync.time = saved_sleep
     truth = {}
     leftovers = []
     for d, _dirs, files in os.walk(root):
         for f in files:
             p = Path(d) / f
             rel = str(p.relative_to(root))
-            if rel.endswith('.tmp'):
-                leftovers.append(rel)
+            if rel not in state and rel not in model:
+                leftovers.append(rel)    # whatever the adapter calls its temporaries
             else:
                 truth[rel] = p.read_bytes()
     shutil.rmtree(root, ignore_errors=True)
@@ -610,13 +492,24 @@ def local_op_cases(op):
         return n, [(dict(sig0, what='fault-free-run-failed'), {'op': op, 'err': repr(base['exc'])[:200]})], {}
     positions = list(dict.fromkeys(base['steps']))
     budgets = {}
+    immaterial = []
     for pos in positions:
         out = local_case((op, [(pos, FOREVER)]))
         n += 1
         detail0 = {'adapter': 'local', 'op': op, 'position': list(pos), 'count': 'forever'}
         if out['exc'] is None:
             if op != 'list':
-                vs.append((dict(sig0, what='persistent-fault-ignored', position=pos[0]), detail0))
+                # the call at this position is not needed for the result (e.g. mkdir of a directory that exists, the
+                # implicit close of an unused handle): fine, as long as result and stored state are the intended ones
+                want = expected_result(op, out['state'])
+                if want is not None and out['res'] != want:
+                    vs.append((dict(sig0, what='persistent-fault-swallowed-wrong-result', position=pos[0]),
+                               dict(detail0, got=repr(out['res'])[:120], want=repr(want)[:120])))
+                elif out['truth'] != out['model'] or out['leftovers']:
+                    vs.append((dict(sig0, what='persistent-fault-swallowed-wrong-state', position=pos[0]),
+                               dict(detail0, leftovers=out['leftovers'])))
+                else:
+                    immaterial.append(f'{pos[0]}#{pos[1]}')
             elif out['res'] != expected_result(op, out['state']):
                 # a listing that cannot be produced must fail, not come back incomplete
                 vs.append((dict(sig0, what='incomplete-listing-returned-without-error', position=f'{pos[0]}#{pos[1]}'),
